@@ -69,6 +69,9 @@ def check(ctx):
                          HOSTNAME="elsewhere", RUST_BACKTRACE="0", OAL_SEED=str(ctx.rng.random()))
     try:
         solos = {i: progs.compile_many([ps[i]])[0] for i in solo_idx}
+        # ... and from a directory that is an ancestor of the sources' location (the modules live under /w)
+        core.PROC_CWD = "/"
+        solos_root = {i: progs.compile_many([ps[i]])[0] for i in solo_idx}
     finally:
         core.PROC_CWD = core.PROC_ENV = None
     seen = set()
@@ -91,6 +94,9 @@ def check(ctx):
         else:
             if i in solos and yaml_of(solos[i]) != y0:
                 ctx.violation("the same sources give a different document in a fresh process", inp, y0, yaml_of(solos[i]))
+            elif i in solos_root and yaml_of(solos_root[i]) != y0:
+                ctx.violation("the same sources at the same location give a different document in a process started from another working directory "
+                              "(an ancestor of the sources' directory)", inp, y0, yaml_of(solos_root[i]))
         key = json.dumps(p["mods"], sort_keys=True)
         if key not in seen and r0.get("status") == "ok":
             seen.add(key)
@@ -101,7 +107,7 @@ def check(ctx):
     ctx.cov["distinct_nontrivial"] = ctx.cov["distribution"].get("nontrivial", 0)
     ctx.cov["inventory"] = inventory.unordered_inventory()
     ctx.cov["rule"] = ("generated programs + corpus (examples maps, composed tags/enum sequences, rec inside applied functions); each compiled 3x in one process, "
-                       "then in 2-3 further processes with a different compilation history, a sample (and the whole corpus, with clock/host/random-flavoured formats) alone in fresh processes started more than a second later from another working directory with another environment (TZ, locale, HOME, USER); YAML compared byte for byte. "
+                       "then in 2-3 further processes with a different compilation history, a sample (and the whole corpus, with clock/host/random-flavoured formats) alone in fresh processes started more than a second later from another working directory with another environment (TZ, locale, HOME, USER), and once more from `/`, an ancestor of the sources' location; YAML compared byte for byte. "
                        "distinct_nontrivial = distinct accepted programs whose document contains implicit component names, examples or tags")
     ctx.assumptions = ["process-level entropy (hash seeds, address space) is sampled by fresh processes, not enumerated",
                        "the inventory lists every HashMap/HashSet mention and every hidden-state primitive in the compile path; all present ones are lookup-only"]
